@@ -84,6 +84,33 @@ package thrift
 //@ roundtrip FieldHeader [C16]: encode (*TCompactProtocol).WriteFieldBegin decode (*TCompactProtocol).ReadFieldBegin unroll 3 where typeId in 3,4,6,8,10,11,12,13,14,15 where lastFieldId in -32768..32767
 //@ roundtrip ListHeader [C16]: encode (*TCompactProtocol).WriteListBegin decode (*TCompactProtocol).ReadListBegin unroll 5 where elemType in 2,3,4,6,8,10,11,12,13,14,15 where size in 0..2147483647
 
+// Single bytes, booleans outside a field header, set and map headers of the compact
+// protocol.  A set header is a list header.  A map header is the size as a varint
+// followed by one byte with the two element types - except that an EMPTY map is the
+// single byte 0 and the decoder then reports both types as STOP: the types of an
+// empty map do not survive the wire, so the round trip is stated for sizes >= 1
+// (PRECONDITION; the size itself also comes back for 0).  A boolean that is a field
+// value travels inside its field header (booleanFieldPending / boolValueIsNotNull
+// set by Write/ReadFieldBegin); the harness below is the other case, a boolean that
+// is a list element or stands alone: both flags false (PRECONDITIONS).
+//@ roundtrip Byte [C16]: encode (*TCompactProtocol).WriteByte decode (*TCompactProtocol).ReadByte unroll 1
+//@ roundtrip Bool [C16]: encode (*TCompactProtocol).WriteBool decode (*TCompactProtocol).ReadBool unroll 3 where booleanFieldPending in 0 where boolValueIsNotNull in 0
+//@ roundtrip SetHeader [C16]: encode (*TCompactProtocol).WriteSetBegin decode (*TCompactProtocol).ReadSetBegin unroll 5 where elemType in 2,3,4,6,8,10,11,12,13,14,15 where size in 0..2147483647
+//@ roundtrip MapHeader [C16]: encode (*TCompactProtocol).WriteMapBegin decode (*TCompactProtocol).ReadMapBegin unroll 5 where keyType in 2,3,4,6,8,10,11,12,13,14,15 where valueType in 2,3,4,6,8,10,11,12,13,14,15 where size in 1..2147483647
+
+// The binary protocol's single bytes, booleans and headers: type bytes followed by
+// a big-endian i16 id (field) or i32 size (list, set, map).  PRECONDITIONS: a field
+// type other than STOP (a STOP byte ends the struct and has no id); sizes within
+// int32.  The binary protocol's strings are NOT under a harness: readStringBody
+// reads in chunks of readLimit bytes, a loop whose trip count grows with the length
+// rather than with the operand width (bounded driver only).
+//@ roundtrip BinaryByte [C16]: encode (*TBinaryProtocol).WriteByte decode (*TBinaryProtocol).ReadByte unroll 1
+//@ roundtrip BinaryBool [C16]: encode (*TBinaryProtocol).WriteBool decode (*TBinaryProtocol).ReadBool unroll 1
+//@ roundtrip BinaryFieldHeader [C16]: encode (*TBinaryProtocol).WriteFieldBegin decode (*TBinaryProtocol).ReadFieldBegin unroll 1 where typeId in 2,3,4,6,8,10,11,12,13,14,15
+//@ roundtrip BinaryListHeader [C16]: encode (*TBinaryProtocol).WriteListBegin decode (*TBinaryProtocol).ReadListBegin unroll 1 where size in 0..2147483647
+//@ roundtrip BinarySetHeader [C16]: encode (*TBinaryProtocol).WriteSetBegin decode (*TBinaryProtocol).ReadSetBegin unroll 1 where size in 0..2147483647
+//@ roundtrip BinaryMapHeader [C16]: encode (*TBinaryProtocol).WriteMapBegin decode (*TBinaryProtocol).ReadMapBegin unroll 1 where size in 0..2147483647
+
 // Struct nesting: the previous field id is saved on a stack when a struct begins
 // and restored when it ends, so whatever is written (or measured) for a nested
 // struct leaves the enclosing struct's field-id state as it found it - the state
